@@ -256,9 +256,16 @@ def gen_score(rng, spines=None, measures=None, allow_splits=True, kern_only=Fals
         def ops_row(marks):
             simple_row('ops', lambda sid, col: Cell('op', marks.get(col, '*'), sid, col))
 
-        def close_group():
+        def close_group(final=False):
             nonlocal group, inner_first
             t, n = group
+            kcols = [c for c, (sid, _) in enumerate(live) if headers[sid] == '**kern' and not (t <= c < t + n)]
+            if n == 2 and allow_splits and kcols and not final and rng.random() < 0.3:
+                # one record in which a spine joins while another one splits: the number of columns stays, the columns shift
+                c = rng.choice(kcols)
+                ops_row({t: '*v', t + 1: '*v', c: '*^'})
+                group, inner_first = ((c, 2) if c < t else (c - 1, 2)), None
+                return
             if n == 2:
                 ops_row({t: '*v', t + 1: '*v'})
             elif rng.random() < 0.5:
@@ -300,9 +307,9 @@ def gen_score(rng, spines=None, measures=None, allow_splits=True, kern_only=Fals
                 return gen_other_data(rng, headers[sid], sid, col)
             simple_row('data', data)
             if group is not None and (rng.random() < 0.5 or d == 2):
-                close_group()
-        if group is not None:
-            close_group()
+                close_group(final=(d == 2))
+        while group is not None:
+            close_group(final=True)
     if last_bar:
         bt = rng.choice(['', '=', '||', ':|!'])
         text = ('=' + bt if bt != '=' else '==') + (';' if rng.random() < 0.15 else '')
